@@ -62,11 +62,12 @@ def splitAt (isMark : String → Bool) (ws : Toks) : Toks × List (String × Tok
       else go r (w :: cur) curM pre acc
   go ws [] none [] []
 
-/-- model tokens may end in "*" (rest not predicted) -/
+/-- model tokens may end in "*" (rest not predicted); "?" = one token the model does not predict
+    (date renderings: checked against the ground truth only) -/
 def matchToks : Toks → Toks → Bool
   | ["*"], _ => true
   | [], [] => true
-  | m :: ms, o :: os => m == o && matchToks ms os
+  | m :: ms, o :: os => (m == "?" || m == o) && matchToks ms os
   | _, _ => false
 
 def showToks (t : Toks) : String := " ".intercalate t
@@ -75,7 +76,7 @@ def firstDiff (m o : Toks) : String :=
   let rec go (i : Nat) : Toks → Toks → String
     | ["*"], _ => "none"
     | [], [] => "none"
-    | a :: as, b :: bs => if a == b then go (i+1) as bs else s!"token#{i}:model={a.take 60},impl={b.take 60}"
+    | a :: as, b :: bs => if a == "?" || a == b then go (i+1) as bs else s!"token#{i}:model={a.take 60},impl={b.take 60}"
     | [], b :: _ => s!"token#{i}:model=<end>,impl={b.take 60}"
     | a :: _, [] => s!"token#{i}:model={a.take 60},impl=<end>"
   go 0 m o
@@ -118,6 +119,7 @@ structure GzTruth where
   comment : Option Bytes
   extra : Option Bytes
   mtime : Nat
+  mdesc : String
   xfl : Nat
   os : Nat
   hlen : Nat
@@ -126,12 +128,12 @@ structure GzTruth where
 
 def gzTruth (seg : Toks) : Option GzTruth := do
   pure { flg := ← kvNat seg "flg", name := ← kvHexOpt seg "name", comment := ← kvHexOpt seg "comment", extra := ← kvHexOpt seg "extra",
-         mtime := ← kvNat seg "mtime", xfl := ← kvNat seg "xfl", os := ← kvNat seg "os", hlen := ← kvNat seg "hlen",
+         mtime := ← kvNat seg "mtime", mdesc := ← kvGet seg "mdesc", xfl := ← kvNat seg "xfl", os := ← kvNat seg "os", hlen := ← kvNat seg "hlen",
          clen := ← kvNat seg "clen", data := ← kvHex seg "data" }
 
 def gzHeaderToks (h : GzHeader) : Toks :=
   ["M", toString h.cm, bit h.text ++ bit h.hcrc ++ bit h.extra ++ bit h.name ++ bit h.comment, toString h.reserved,
-   toString h.mtime, toString h.xfl, toString h.os, optNat h.xlen, optHex h.extraBytes, optHexS h.nameStr, optHexS h.commentStr,
+   toString h.mtime, "?", toString h.xfl, toString h.os, optNat h.xlen, optHex h.extraBytes, optHexS h.nameStr, optHexS h.commentStr,
    optHex h.hcrcBytes, "B"]
 
 def gzBodyToks (b : GzBody) : Toks := [toString b.clen, toString b.crc, b.crcDesc, toString b.isize, hexB b.data]
@@ -163,13 +165,14 @@ def gzProp (ts : List GzTruth) (obs : Toks) : String :=
       | _ :: _, [] => some (i, "member missing")
       | t :: ts, (_, m) :: ms =>
         match m with
-        | [cm, _fl, _rs, mtime, xfl, os, _xlen, extra, name, comment, _hcrc, "B", clen, crc, cd, isize, u] =>
+        | [cm, _fl, _rs, mtime, mdesc, xfl, os, _xlen, extra, name, comment, _hcrc, "B", clen, crc, cd, isize, u] =>
           let bad :=
             if cm != "8" then "compression_method"
             else if name != optHex t.name then "name"
             else if comment != optHex t.comment then "comment"
             else if extra != optHex t.extra then "extra"
             else if mtime != toString t.mtime then "mtime"
+            else if mdesc != t.mdesc then "mtime description is not the written time"
             else if xfl != toString t.xfl then "extra_flags"
             else if os != toString t.os then "os"
             else if clen != toString t.clen then "compressed size"
@@ -210,7 +213,7 @@ def stepGzip (file : Bytes) (truth obs : Toks) : String :=
 /-! ### tar -/
 
 def tarEntryToks (e : TarEntry) : Toks :=
-  ["F", hexS e.name, optNat e.mode, optNat e.uid, optNat e.gid, toString e.size, optNat e.mtime, optNat e.chksum,
+  ["F", hexS e.name, optNat e.mode, optNat e.uid, optNat e.gid, toString e.size, optNat e.mtime, "?", optNat e.chksum,
    hexS e.typeflag, hexS e.linkname, hexS e.magic, optNat e.version, hexS e.uname, hexS e.gname, optNat e.devmajor,
    optNat e.devminor, hexS e.pfx, toString e.hpad, hexB e.data, toString e.dpad]
 
@@ -230,11 +233,15 @@ structure TarTruth where
   uname : Option Bytes
   gname : Option Bytes
   data : Bytes
+  mdesc : String
+  devmajor : String
+  devminor : String
 
 def tarTruth (seg : Toks) : Option TarTruth := do
   pure { name := ← kvHex seg "name", typ := ← kvNat seg "type", link := ← kvHexOpt seg "link", mode := ← kvNat seg "mode",
          uid := ← kvNat seg "uid", gid := ← kvNat seg "gid", mtime := ← kvNat seg "mtime", uname := ← kvHexOpt seg "uname",
-         gname := ← kvHexOpt seg "gname", data := ← kvHex seg "data" }
+         gname := ← kvHexOpt seg "gname", data := ← kvHex seg "data", mdesc := ← kvGet seg "mdesc",
+         devmajor := ← kvGet seg "devmajor", devminor := ← kvGet seg "devminor" }
 
 structure TarObs where
   name : Bytes
@@ -250,12 +257,15 @@ structure TarObs where
   gname : Bytes
   pfx : Bytes
   data : Bytes
+  mdesc : String
+  devmajor : String
+  devminor : String
 
 def tarObs (m : Toks) : Option TarObs :=
   match m with
-  | [name, mode, uid, gid, size, mtime, chksum, tf, ln, _magic, _ver, un, gn, _dmaj, _dmin, pfx, _hp, data, _dp] => do
+  | [name, mode, uid, gid, size, mtime, mdesc, chksum, tf, ln, _magic, _ver, un, gn, dmaj, dmin, pfx, _hp, data, _dp] => do
     pure { name := ← unhex name, mode, uid, gid, size, mtime, chksum, typeflag := ← unhex tf, linkname := ← unhex ln,
-           uname := ← unhex un, gname := ← unhex gn, pfx := ← unhex pfx, data := ← unhex data }
+           uname := ← unhex un, gname := ← unhex gn, pfx := ← unhex pfx, data := ← unhex data, mdesc, devmajor := dmaj, devminor := dmin }
   | _ => none
 
 /-- does a pax extended header body contain the record `<len> <key>=<value>\n`? (length prefix not re-checked) -/
@@ -320,6 +330,8 @@ def tarProp (file : Bytes) (ts : List TarTruth) (obs : Toks) : String :=
               else if !numOk o.uid t.uid "uid" then s!"PROPFAIL tar: member {i} uid {o.uid}"
               else if !numOk o.gid t.gid "gid" then s!"PROPFAIL tar: member {i} gid {o.gid}"
               else if o.mtime != toString t.mtime then s!"PROPFAIL tar: member {i} mtime {o.mtime}"
+              else if o.mdesc != t.mdesc then s!"PROPFAIL tar: member {i} mtime description is not the written time"
+              else if o.devmajor != t.devmajor || o.devminor != t.devminor then s!"PROPFAIL tar: member {i} devmajor/devminor {o.devmajor}/{o.devminor}, written {t.devmajor}/{t.devminor}"
               else if !strOk o.uname t.uname "uname" then s!"PROPFAIL tar: member {i} uname"
               else if !strOk o.gname t.gname "gname" then s!"PROPFAIL tar: member {i} gname"
               else walk (i+1) ts es none none none
@@ -352,6 +364,7 @@ def tTEXT : Bytes := [0x74, 0x45, 0x58, 0x74]
 def tZTXT : Bytes := [0x7a, 0x54, 0x58, 0x74]
 def tPLTE : Bytes := [0x50, 0x4c, 0x54, 0x45]
 def tIDAT : Bytes := [0x49, 0x44, 0x41, 0x54]
+def tPHYS : Bytes := [0x70, 0x48, 0x59, 0x73]
 
 def pngChunkRaw (c : PngChunk) : Bytes := toBE 4 c.length ++ c.typ ++ c.data ++ toBE 4 c.crc
 
@@ -377,7 +390,11 @@ def pngChunkToks (c : PngChunk) (texts : List PngText) : Toks × List PngText :=
         | [] => (base ++ ["*"], texts)
       else (base ++ ["Z", hexS kw, toString cm.toNat, "~"], texts.drop 1)
     | _ => (base ++ ["*"], texts)
-  else if c.typ == tPLTE then (base ++ ["P", toString (c.data.length / 3)], texts)
+  else if c.typ == tPLTE then
+    (if c.data.length % 3 == 0 then base ++ ["P", toString (c.data.length / 3), hexB c.data] else base ++ ["*"], texts)
+  else if c.typ == tPHYS then
+    (if c.data.length == 9 then base ++ ["Y", toString (beNat (c.data.take 4)), toString (beNat ((c.data.drop 4).take 4)), toString (beNat (c.data.drop 8))]
+     else base ++ ["*"], texts)
   else (base, texts)
 
 def pngModel (file : Bytes) (texts : List PngText) : Toks :=
@@ -405,12 +422,15 @@ def pngProp (truth : Toks) (texts : List PngText) (obs : Toks) : String :=
       | [] => none
       | c :: cs =>
         match c with
-        | len :: typ :: _fl :: crc :: cd :: raw :: _ =>
+        | len :: typ :: fl :: crc :: cd :: raw :: _ =>
           match unhex raw with
           | some rb =>
             let body := (rb.drop 4).take (rb.length - 8)
+            -- ancillary / private / reserved / safe-to-copy = lower case of the four type letters (bit 5)
+            let wantFl := String.join ((body.take 4).map (fun b => bit (b.toNat.testBit 5)))
             if toString (beNat (rb.take 4)) != len then some s!"chunk {i}: length"
             else if hexB (body.take 4) != typ then some s!"chunk {i}: type"
+            else if fl != wantFl then some s!"chunk {i}: property bits {fl}, type letters say {wantFl}"
             else if crc != toString (crc32 body).toNat then some s!"chunk {i}: stored crc is not crc32(type+data)"
             else if cd != "valid" then some s!"chunk {i}: crc description {cd}"
             else crcs (i+1) cs
@@ -425,6 +445,13 @@ def pngProp (truth : Toks) (texts : List PngText) (obs : Toks) : String :=
         if first.drop 6 != want then s!"PROPFAIL png: IHDR fields {showToks (first.drop 6)} expected {showToks want}"
         else if (chunks.getLast?.bind (·[1]?)) != some (hexB tIEND) then "PROPFAIL png: last chunk is not IEND"
         else if !(chunks.any (·[1]? == some (hexB tIDAT))) then "PROPFAIL png: no IDAT"
+        else if (match kvGet truth "pal" with
+            | some "~" => false
+            | some p => (chunks.find? (fun (c : Toks) => c[1]? == some (hexB tPLTE))).map (fun (c : Toks) => c.drop 6) != some ["P", toString (p.length / 6), p]
+            | none => true) then "PROPFAIL png: PLTE is not the palette written"
+        else if (match kvGet truth "phys" with
+            | some p => (chunks.find? (fun (c : Toks) => c[1]? == some (hexB tPHYS))).map (fun (c : Toks) => c.drop 6) != some ("Y" :: p.splitOn ":")
+            | none => false) then "PROPFAIL png: pHYs fields differ from what was written"
         else
           let tchunks := chunks.filter (fun c => c[1]? == some (hexB tTEXT) || c[1]? == some (hexB tZTXT))
           let rec tx (i : Nat) : List PngText → List Toks → String
@@ -489,15 +516,49 @@ structure ZipTruth where
   fcomment : Option Bytes
   off : Nat
   data : Bytes
+  fdate : Nat
+  ftime : Nat
+  guess : String
+  gdesc : String
+  xt : String
+  ext : String
+  utf8 : String
+
+/-- the MS-DOS time/date words and everything fq derives from them (zip.go:131-186), against the words the
+    generator computed from the modification time it handed to the writer; sub-fields are split here -/
+def zipDateCheck (t : ZipTruth) (ws : Toks) : String :=
+  match ws with
+  | [ft, fd, s, ssym, mi, h, d, mo, y, ysym, guess, gdesc] =>
+    if ft != toString t.ftime then s!"fat_time {ft}, written {t.ftime}"
+    else if fd != toString t.fdate then s!"fat_date {fd}, written {t.fdate}"
+    else if s != toString (t.ftime % 32) || ssym != toString (2 * (t.ftime % 32)) then s!"second {s} ({ssym})"
+    else if mi != toString (t.ftime / 32 % 64) then s!"minute {mi}"
+    else if h != toString (t.ftime / 2048) then s!"hour {h}"
+    else if d != toString (t.fdate % 32) then s!"day {d}"
+    else if mo != toString (t.fdate / 32 % 16) then s!"month {mo}"
+    else if y != toString (t.fdate / 512) || ysym != toString (1980 + t.fdate / 512) then s!"year {y} ({ysym}), written {1980 + t.fdate / 512}"
+    else if guess != t.guess then s!"unix_guess {guess}, written time is {t.guess}"
+    else if gdesc != t.gdesc then "unix_guess description is not the written date"
+    else ""
+  | _ => "last_modification shape"
+
+def zipExtraCheck (t : ZipTruth) (x : String) : String :=
+  if t.xt == "~" then (if x == "-" then "" else s!"extra fields {x}, none written")
+  else if x == s!"21589:5:{t.xt}" then "" else s!"extended timestamp {x}, written 21589:5:{t.xt}"
 
 def zipTruth (seg : Toks) : Option ZipTruth := do
   pure { name := ← kvHex seg "name", method := ← kvNat seg "method", dd := (← kvNat seg "dd") == 1, fcomment := ← kvHexOpt seg "fcomment",
-         off := ← kvNat seg "off", data := ← kvHex seg "data" }
+         off := ← kvNat seg "off", data := ← kvHex seg "data", fdate := ← kvNat seg "fdate", ftime := ← kvNat seg "ftime",
+         guess := ← kvGet seg "guess", gdesc := ← kvGet seg "gdesc", xt := ← kvGet seg "xt", ext := ← kvGet seg "ext", utf8 := ← kvGet seg "utf8" }
 
-def zipProp (truth : Toks) (ts : List ZipTruth) (obs : Toks) : String :=
+def zipProp (file : Bytes) (truth : Toks) (ts : List ZipTruth) (obs : Toks) : String :=
   match obs with
-  | e :: "E" :: _disk :: _nrd :: nr :: _cds :: _cdo :: comment :: rest =>
+  | e :: "E" :: disk :: nrd :: nr :: cds :: cdo :: comment :: rest =>
+    let clen := if comment == "-" then 0 else comment.length / 2
     if e != "ok" then "PROPFAIL zip: decode error on an intact file"
+    else if disk != "0" || nrd != nr then "PROPFAIL zip: disk number / records on disk"
+    else if (do let a ← cds.toNat?; let b ← cdo.toNat?; pure (a + b + 22 + clen)) != some file.length then
+      "PROPFAIL zip: central directory offset + size + end record is not the file length"
     else if nr != toString ts.length then s!"PROPFAIL zip: {nr} records, {ts.length} written"
     else if comment != ((kvGet truth "comment").map (fun c => if c == "~" then "-" else c)).getD "?" then "PROPFAIL zip: archive comment"
     else
@@ -512,8 +573,16 @@ def zipProp (truth : Toks) (ts : List ZipTruth) (obs : Toks) : String :=
       | _, [] => none
       | t :: ts, d :: ds =>
         match d with
-        | name :: method :: fl :: crc :: csize :: usize :: lfo :: fc :: _ =>
+        | name :: method :: fl :: crc :: csize :: usize :: lfo :: fc :: _nx :: ext :: "T" :: rest =>
+          let dc := zipDateCheck t (rest.take 12)
+          let xc := match rest.drop 12 with
+            | "X" :: x :: _ => zipExtraCheck t x
+            | _ => "extra fields shape"
           if name != hexB t.name then some s!"central directory {i}: name"
+          else if dc != "" then some s!"central directory {i}: {dc}"
+          else if xc != "" then some s!"central directory {i}: {xc}"
+          else if ext != t.ext then some s!"central directory {i}: external_file_attributes {ext}, written {t.ext}"
+          else if (fl.drop 1).toString != t.utf8 then some s!"central directory {i}: language_encoding flag"
           else if method != toString t.method then some s!"central directory {i}: method"
           else if fl.take 1 != bit t.dd then some s!"central directory {i}: data descriptor flag"
           else if crc != toString (crc32 t.data).toNat then some s!"central directory {i}: crc32_uncompressed is not crc32(payload)"
@@ -531,10 +600,17 @@ def zipProp (truth : Toks) (ts : List ZipTruth) (obs : Toks) : String :=
         | _, [] => "OK"
         | t :: ts, l :: ls =>
           match l with
-          | name :: method :: fl :: crc :: _csize :: usize :: u :: _clen :: ddp :: _ddsig :: ddcrc :: _ddcs :: ddus :: _ =>
+          | name :: method :: fl :: crc :: _csize :: usize :: u :: _clen :: ddp :: _ddsig :: ddcrc :: _ddcs :: ddus :: "T" :: rest =>
             let known := t.method == 0 && t.dd && !t.data.isEmpty
+            let dc := zipDateCheck t (rest.take 12)
+            let xc := match rest.drop 12 with
+              | "X" :: x :: _ => zipExtraCheck t x
+              | _ => "extra fields shape"
             let bad :=
               if name != hexB t.name then "name"
+              else if dc != "" then dc
+              else if xc != "" then xc
+              else if (fl.drop 1).toString != t.utf8 then "language_encoding flag"
               else if method != toString t.method then "method"
               else if fl.take 1 != bit t.dd then "data descriptor flag"
               else if u != hexB t.data then "uncompressed payload differs from what was written"
@@ -555,11 +631,22 @@ def zipProp (truth : Toks) (ts : List ZipTruth) (obs : Toks) : String :=
 
 def gifProp0 (truth obs : Toks) : String :=
   match obs with
-  | e :: hdr :: w :: h :: gcp :: _cres :: _z :: _bd :: _bc :: _par :: gcm :: _nb :: rest =>
+  | e :: hdr :: w :: h :: gcp :: cres :: z :: bd :: bc :: par :: gcm :: _nb :: rest =>
     if e != "ok" then "PROPFAIL gif: decode error on an intact file"
     else if hdr != "474946383961" then "PROPFAIL gif: header"
     else if some w != kvGet truth "w" || some h != kvGet truth "h" then "PROPFAIL gif: logical screen size"
     else if gcp != bit (kvNat truth "gct" == some 1) then "PROPFAIL gif: global colour map flag"
+    else if cres != "1" || z != "0" || par != "0" then "PROPFAIL gif: colour resolution / sort flag / pixel aspect ratio"
+    else if some bd != (if kvNat truth "gct" == some 1 then kvGet truth "lbits" else some "1") then "PROPFAIL gif: logical screen bit depth"
+    else if some bc != kvGet truth "bg" then "PROPFAIL gif: background colour index"
+    else if (match kvNat truth "n", (kvGet truth "loop").bind String.toInt? with
+        | some n, some loop =>
+          let want : Option Toks := if n > 1 && loop ≥ 0 then
+            some ["255", "2", "4e45545343415045322e30" ++ hexOfBytes [1, UInt8.ofNat (loop.toNat % 256), UInt8.ofNat (loop.toNat / 256)]] else none
+          let sg : List (String × Toks) := (splitAt (fun x => x == "I" || x == "X" || x == "T") rest).2
+          let got : Option Toks := (sg.find? (fun (s : String × Toks) => s.1 == "X" && s.2.head? == some "255")).map (fun (s : String × Toks) => s.2)
+          got != want
+        | _, _ => true) then "PROPFAIL gif: NETSCAPE loop extension"
     else if kvNat truth "gct" == some 1 && !((kvGet truth "pal").map (fun p => gcm.startsWith p)).getD false then "PROPFAIL gif: global colour map does not start with the palette"
     else
     let (_, tsegs) := splitAt (· == "I") truth
@@ -568,7 +655,7 @@ def gifProp0 (truth obs : Toks) : String :=
     if imgs.length != tsegs.length then s!"PROPFAIL gif: {imgs.length} images, {tsegs.length} written" else
     if (segs.find? (·.1 == "T")).map (·.2) != some ["59"] then "PROPFAIL gif: trailer" else
     -- delays: a graphic control extension (0xf9 = 249) qualifies the next image; none = delay 0
-    let rec go (i : Nat) (ts : List (String × Toks)) (bl : List (String × Toks)) (pending : Option Nat) : String :=
+    let rec go (i : Nat) (ts : List (String × Toks)) (bl : List (String × Toks)) (pending : Option (Nat × Nat)) : String :=
       match bl with
       | [] => if ts.isEmpty then "OK" else s!"PROPFAIL gif: image {i} missing"
       | (k, b) :: bl =>
@@ -576,18 +663,21 @@ def gifProp0 (truth obs : Toks) : String :=
           match b with
           | ["249", _, d] =>
             match unhex d with
-            | some [_, lo, hi, _] => go i ts bl (some (lo.toNat + 256 * hi.toNat))
+            | some [fl, lo, hi, _] => go i ts bl (some (lo.toNat + 256 * hi.toNat, fl.toNat))
             | _ => s!"PROPFAIL gif: graphic control block before image {i}"
           | _ => go i ts bl pending
         else if k == "I" then
           match ts, b with
-          | (_, t) :: ts, l :: tp :: iw :: ih :: lcm :: il :: _bd :: _cs :: lmap :: _nsub :: _bytes :: "P" :: pix :: _ =>
+          | (_, t) :: ts, l :: tp :: iw :: ih :: lcm :: il :: ibd :: cs :: lmap :: _nsub :: _bytes :: "P" :: pix :: _ =>
             if lcm != bit (kvNat truth "gct" != some 1) then s!"PROPFAIL gif: image {i} local colour map flag"
             else if lcm == "1" && !((kvGet truth "pal").map (fun p => lmap.startsWith p)).getD false then s!"PROPFAIL gif: image {i} local colour map does not start with the palette"
             else if some l != kvGet t "x" || some tp != kvGet t "y" || some iw != kvGet t "w" || some ih != kvGet t "h" then s!"PROPFAIL gif: image {i} position/size"
             else if il != "0" then s!"PROPFAIL gif: image {i} interlace flag"
             else if some pix != kvGet t "pix" then s!"PROPFAIL gif: image {i}: the LZW data fq reports does not expand to the pixels written"
-            else if kvNat t "delay" != some (pending.getD 0) then s!"PROPFAIL gif: image {i} delay"
+            else if kvNat t "delay" != some (pending.getD (0, 0)).1 then s!"PROPFAIL gif: image {i} delay"
+            else if (kvNat t "disp").map (· * 4) != some (pending.getD (0, 0)).2 then s!"PROPFAIL gif: image {i} disposal / transparency flags"
+            else if some ibd != (if lcm == "1" then kvGet truth "lbits" else some "1") then s!"PROPFAIL gif: image {i} bit depth"
+            else if some cs != (kvNat truth "lbits").map (fun b => toString (max 2 b)) then s!"PROPFAIL gif: image {i} LZW code size"
             else go (i+1) ts bl none
           | _, _ => s!"PROPFAIL gif: image {i} shape"
         else go i ts bl pending
@@ -644,8 +734,12 @@ def wavProp (file : Bytes) (truth obs : Toks) : String :=
       let fv := g "fv"
       if riff != [toString (file.length - 8), "R", "57415645"] then "PROPFAIL wav: RIFF size/form type"
       else match fmt, data with
-        | _sz :: "F" :: af :: ch :: rate :: brate :: al :: bits :: cb :: ex :: es :: vb :: mask :: sub :: _, [dsz, "S", samples] =>
+        | fsz :: "F" :: af :: ch :: rate :: brate :: al :: bits :: cb :: ex :: es :: vb :: mask :: sub :: _, [dsz, "S", samples] =>
+          let wantF := if fv == "0" then some 16 else if fv == "2" then some 40 else (kvNat truth "cb").map (18 + ·)
           if [af, ch, rate, brate, al, bits] != [g "af", g "ch", g "rate", g "brate", g "align", g "bits"] then "PROPFAIL wav: fmt fields"
+          else if some fsz != wantF.map toString then "PROPFAIL wav: fmt chunk size"
+          else if g "info" != "~" && (wavChunk rest "4c495354").map (fun c => c.drop 1) != some ["Y", "494e464f"] then "PROPFAIL wav: LIST type"
+          else if g "junk" != "~" && (wavChunk rest "6a756e6b").map (fun c => c.drop 1) != some ["D", g "junk"] then "PROPFAIL wav: junk chunk data"
           else if fv == "0" && (cb != "~" || es != "~") then "PROPFAIL wav: plain fmt chunk shows extension fields"
           else if fv == "1" && (cb != g "cb" || ex != g "ex") then "PROPFAIL wav: cb_size / extra bytes"
           else if fv == "2" && (es != "22" || vb != g "vb" || mask != g "mask" || sub != "0100000000001000800000aa00389b71") then "PROPFAIL wav: extensible fmt fields"
@@ -747,7 +841,7 @@ def stepC15 (op obs : String) : String :=
       else if format == "zip" then
         let (pre, segs) := splitAt (· == "F") truth
         match segs.mapM (fun s => zipTruth s.2) with
-        | some ts => zipProp pre ts o
+        | some ts => zipProp file pre ts o
         | none => "BADOP zip truth"
       else if format == "gif" then gifProp truth o
       else if format == "wav" then wavProp file truth o
